@@ -177,6 +177,7 @@ type manifestSession struct {
 	bigLevel bool            // some create used a level >= 256 (Levels and Tables disagree by design)
 	rewrite  bool            // first frame was written by helpRewrite from a Go map (random order)
 	diverged bool            // an addChanges failed: the in-memory manifest is partially modified (error path, no oracle)
+	torn     bool            // the handle was obtained by reopening a file with a torn tail
 }
 
 func (s *manifestSession) path() string { return filepath.Join(s.dir, badger.ManifestFilename) }
@@ -427,7 +428,11 @@ func execManifest(ops []string, st *Stats) ([]string, []string) {
 				// oracle C17: replay of the real file == in-memory manifest
 				r := s.replayBytes(s.fileBytes(), s.ext)
 				if msg := s.compare(r, d, after.Size()); msg != "" && !s.diverged {
-					fail(i, "[replay-exact] after addChanges: "+msg)
+					if s.torn {
+						fail(i, "[C17-append-after-recover-lost] change set appended through a handle reopened after a torn tail does not replay: "+msg)
+					} else {
+						fail(i, "[replay-exact] after addChanges: "+msg)
+					}
 				}
 				return "ok " + d.String()
 			case w[0] == "appendraw" && len(w) == 2:
@@ -530,22 +535,91 @@ func execManifest(ops []string, st *Stats) ([]string, []string) {
 				}
 				agg.flush(func(m string) { fail(i, m) })
 				return fmt.Sprintf("%d %d %s", start, n, rleStrings(rs))
+			case (w[0] == "tear" || w[0] == "tearapp") && len(w) == 2:
+				b := s.fileBytes()
+				var img []byte
+				if w[0] == "tear" {
+					k := int(atou(w[1]))
+					if k > len(b) {
+						k = len(b)
+					}
+					img = append([]byte{}, b[:len(b)-k]...)
+					// C17_trunc / C09_manifest_trunc on the image (F16 class included)
+					s.judgeCut(b, len(img), s.replayBytes(img, s.ext), func(m string) { fail(i, m) }, st)
+				} else {
+					img = append(append([]byte{}, b...), unhx(w[1])...)
+				}
+				_ = s.vmf.Close()
+				s.vmf = nil
+				if err := os.WriteFile(s.path(), img, 0o644); err != nil {
+					panic(err)
+				}
+				vmf, m, err := badger.VerifOpenManifest(s.dir, s.ext, s.thr)
+				if err != nil {
+					st.Inc(w[0] + ":open-error")
+					return manifestErrStr(err)
+				}
+				s.vmf = vmf
+				nb := s.fileBytes()
+				s.torn = true
+				s.countsOK = false
+				if len(nb) <= 8 {
+					s.rewrite = false // the frame written by helpRewrite is gone
+				}
+				dm, dc := dumpOf(&m), dumpOf(vmf.Manifest())
+				if dm.tables != dc.tables {
+					fail(i, "[replay-exact] clone of the replayed manifest has different tables")
+				}
+				if w[0] == "tearapp" {
+					// a torn record after an intact file: exactly the intact file must be recovered
+					if !bytes.Equal(nb, b) {
+						fail(i, fmt.Sprintf("[trunc] torn record appended to a %d-byte MANIFEST: reopen leaves %d bytes", len(b), len(nb)))
+					}
+					if h, ok := s.hist[int64(len(b))]; ok && h.tables != dm.tables && !s.diverged {
+						fail(i, "[trunc] torn record appended: recovered tables differ from the ones before the crash")
+					}
+				}
+				s.hist = map[int64]mdump{int64(len(nb)): dc}
+				st.Inc(w[0] + ":ok")
+				return fmt.Sprintf("ok %d %s %s", len(nb), dm, dc)
 			case w[0] == "reopen" && len(w) == 1:
 				_ = s.vmf.Close()
 				s.vmf = nil
+				wantTables, haveWant := "", false
+				if fi, err := os.Stat(s.path()); err == nil {
+					if h, ok := s.hist[fi.Size()]; ok {
+						wantTables, haveWant = h.tables, true
+					}
+				}
 				vmf, m, err := badger.VerifOpenManifest(s.dir, s.ext, s.thr)
 				if err != nil {
+					if s.torn && !s.diverged {
+						fail(i, "[C17-append-after-recover-lost] MANIFEST written through a handle recovered from a torn tail does not open: "+manifestErrStr(err))
+					} else if !s.diverged {
+						fail(i, "[replay-exact] reopen of an intact MANIFEST fails: "+manifestErrStr(err))
+					}
 					return manifestErrStr(err)
 				}
 				s.vmf = vmf
 				b := s.fileBytes()
+				if haveWant && !s.diverged && dumpOf(&m).tables != wantTables {
+					if s.torn {
+						fail(i, "[C17-append-after-recover-lost] reopen: replayed tables ["+dumpOf(&m).tables+"] differ from the in-memory ones before closing ["+wantTables+"]")
+					} else {
+						fail(i, "[replay-exact] reopen: replayed tables differ from the in-memory ones before closing")
+					}
+				}
 				s.countsOK = false
 				dm, dc := dumpOf(&m), dumpOf(vmf.Manifest())
 				if dm.tables != dc.tables {
 					fail(i, "[replay-exact] clone of the replayed manifest has different tables")
 				}
 				if h, ok := s.hist[int64(len(b))]; ok && h.tables != dm.tables {
-					fail(i, "[replay-exact] reopen: tables differ from the in-memory manifest before closing")
+					if s.torn {
+						fail(i, "[C17-append-after-recover-lost] reopen after appends through a handle recovered from a torn tail: tables differ from the in-memory manifest before closing")
+					} else {
+						fail(i, "[replay-exact] reopen: tables differ from the in-memory manifest before closing")
+					}
 				}
 				s.hist[int64(len(b))] = dc
 				return fmt.Sprintf("ok %d %s %s", len(b), dm, dc)
@@ -789,6 +863,7 @@ func genManifestSession(rng *rand.Rand, st *Stats) []string {
 	}
 	nAdds := 4 + rng.Intn(24)
 	deleteHeavy := rng.Intn(2) == 0
+	tornSession := false
 	for a := 0; a < nAdds; a++ {
 		var cs []string
 		sz := rng.Intn(6)
@@ -879,7 +954,36 @@ func genManifestSession(rng *rand.Rand, st *Stats) []string {
 			if rng.Intn(3) == 0 {
 				ops = append(ops, "reopen")
 			}
+		case 8, 9:
+			// crash while appending, reopen, and keep appending through the recovered handle
+			if rng.Intn(2) == 0 {
+				switch rng.Intn(3) {
+				case 0:
+					ops = append(ops, fmt.Sprintf("tear %d", 1+rng.Intn(7)))
+				case 1:
+					ops = append(ops, fmt.Sprintf("tear %d", rng.Intn(30)))
+				default:
+					// torn record: 1..7 header bytes, or a full header (small length) with a short payload
+					var t []byte
+					if rng.Intn(2) == 0 {
+						t = []byte{0, 0, 0, byte(1 + rng.Intn(40)), byte(rng.Intn(256)), byte(rng.Intn(256)), byte(rng.Intn(256))}[:1+rng.Intn(7)]
+					} else {
+						l := 2 + rng.Intn(14)
+						t = []byte{0, 0, 0, byte(l), byte(rng.Intn(256)), byte(rng.Intn(256)), byte(rng.Intn(256)), byte(rng.Intn(256))}
+						p := make([]byte, rng.Intn(l))
+						rng.Read(p)
+						t = append(t, p...)
+					}
+					ops = append(ops, "tearapp "+hx(t))
+				}
+				st.Inc("scenario:tear")
+				tornSession = true
+			}
 		}
+	}
+	if tornSession {
+		// close and reopen once more: everything appended after the recovery must replay
+		ops = append(ops, "reopen")
 	}
 	ops = append(ops, "file", "replay", "cuts", "zeros 0")
 	if rng.Intn(3) == 0 {
